@@ -20,7 +20,7 @@ RULE = ("differential run of all/any/sum/min/max/list/tuple/set/dict/sorted/redu
         "tie, a raising twin, or an option (key/default/start/initial/reverse/n); distinct = spec+flavours")
 ASSUMPTIONS = ["builtins/functools/heapq of the running interpreter (3.12) are the reference, incl. compensated float sum"]
 EXHAUSTIVE = {"quick": False, "thorough": False}
-N_RANDOM = {"quick": 32000, "thorough": 1000000}
+N_RANDOM = {"quick": 150000, "thorough": 8000000}
 FLAVS = ["list", "sync_iter", "async_class", "async_gen", "tuple", "sync_gen", "getitem_seq"]
 FNFL = ["def", "async_def", "callobj"]
 
